@@ -11,6 +11,49 @@ use crate::trace::{Front, Step, Trace, Violation, Wiring};
 
 pub struct C02;
 
+/// The trace executed while a second, unrelated terminal (its own parser and screen) is driven
+/// on the same thread between the steps: anything the library keeps outside the two objects
+/// (statics, thread-locals) shows up as a difference to the undisturbed run.
+fn with_neighbour(t: &Trace, noise: &Trace) -> Result<(Snapshot, Vec<String>), Violation> {
+    use crate::exec::FrontEnd;
+    use memterm::parser_listener::ParserListener;
+    use memterm::screen::Screen;
+    use std::sync::{Arc, Mutex};
+    let s1 = Arc::new(Mutex::new(Screen::new(t.columns, t.lines)));
+    let mut f1 = FrontEnd::new(t.front, t.utf8, s1.clone());
+    let s2 = Arc::new(Mutex::new(Screen::new(noise.columns, noise.lines)));
+    let mut f2 = FrontEnd::new(noise.front, noise.utf8, s2.clone());
+    let mut ni = noise.steps.iter();
+    let poisoned = || Violation::new("C02", "C02/poisoned", "listener mutex poisoned", 0);
+    for st in &t.steps {
+        match st {
+            Step::Feed(b) => f1.feed(b),
+            Step::Charset(c) => f1.charset(c),
+            _ => {}
+        }
+        // the neighbour takes a turn
+        for _ in 0..2 {
+            match ni.next() {
+                Some(Step::Feed(b)) => f2.feed(b),
+                Some(Step::Charset(c)) => f2.charset(c),
+                Some(Step::Display) | Some(Step::Paint) => {
+                    let _ = s2.lock().map_err(|_| poisoned())?.display();
+                }
+                Some(Step::Api(op)) => {
+                    let mut g2 = s2.lock().map_err(|_| poisoned())?;
+                    op.apply(&mut g2);
+                }
+                Some(Step::Resize(l, c)) => s2.lock().map_err(|_| poisoned())?.resize(Some(*l), Some(*c)),
+                _ => {}
+            }
+        }
+    }
+    let mut g = s1.lock().map_err(|_| poisoned())?;
+    let snap = Snapshot::take(&g);
+    let shown = g.display();
+    Ok((snap, shown))
+}
+
 fn final_snapshot(t: &Trace) -> Result<Snapshot, Violation> {
     let (_stats, screen) = exec::run_p(t, &mut NoObs)?;
     let g = screen
@@ -97,6 +140,7 @@ impl Property for C02 {
         p.eightbit_pct = 25;
         p.switch_pct = 8;
         p.max_len = 300;
+        p.big_permille = 4;
         let mut t = gen::trace("C02", seed, index, &p);
         if t.bytes_total() <= gen::bound(64) && r.chance(1, 2) {
             t.extra = vec![1];
@@ -120,6 +164,36 @@ impl Property for C02 {
             (Front::Bytes, false) => cov.hit("front_byteparser_8bit"),
         }
         compare(&whole, &chunked, "generated partition")?;
+
+        // every 4th case: the same chunked delivery with a neighbouring terminal active on the
+        // same thread in between - the result may depend on nothing but the stream
+        if (trace.seed ^ trace.index) % 4 == 0 {
+            let mut p = Profile::base(Focus::Any);
+            p.wiring_p_pct = 100;
+            p.corrupt_pct = 20;
+            p.max_len = 200;
+            let noise = gen::trace("C02-neighbour", trace.seed, trace.index, &p);
+            let (snap, shown) = with_neighbour(trace, &noise)?;
+            cov.hit("neighbour_terminal_runs");
+            if let Some(d) = chunked.diff(&snap, &["savepoint_contents"]) {
+                return Err(Violation::new(
+                    "C02",
+                    "C02/neighbour_terminal_changes_state",
+                    format!("the same chunks fed while another terminal was active on the same thread end in a different state: {}", d),
+                    0,
+                ));
+            }
+            let strict = snap.render(true);
+            let loose = snap.render(false);
+            if shown != strict && shown != loose {
+                return Err(Violation::new(
+                    "C02",
+                    "C02/neighbour_terminal_changes_display",
+                    format!("display() after running next to another terminal = {:?}, the grid renders as {:?}", shown, strict),
+                    0,
+                ));
+            }
+        }
 
         if trace.extra.first() == Some(&1) {
             // enumerate every 2-way cut of every mode segment, and byte-at-a-time
